@@ -29,6 +29,9 @@ func (w *World) extraChecks(id string, opts *RunOpts) *Extra {
 	if id == "C14" {
 		w.boundedC14(opts, ex)
 	}
+	if id == "C12" {
+		w.mapRanges(opts, ex)
+	}
 	if id == "C18" {
 		w.errorPropagation(opts, ex)
 	}
